@@ -177,6 +177,22 @@ def observe(res, T, t, cls, mod, model, case, what):
     p.sunvox_version = vr.choice([(2, 1, 2, 1), (1, 9, 5, 0), (1, 9, 6, 1), (2, 0, 0, 0)])
     res.hist("project_versions", f"VERS{p.sunvox_version[:2]}/BVER{p.based_on_version[:3]}")
     p.attach_module(c)
+    if vr.random() < 0.5:
+        # automation aimed at the module: a MultiCtl whose mappings name controller numbers up to and past the module's
+        # controllers (numbers that name nothing are documented no-ops); options are not controllers
+        nctl = len(type(c).controllers)
+        nums = [nctl + 1, nctl + 2, 124, 125, 127, nctl + vr.randint(1, 140)]
+        mc = p.new_module(__import__("rv.api").api.m.MultiCtl, mappings=[(0, 0x8000, vr.choice(nums), 0, 0, 0, 0, 0)])
+        mc >> c
+        try:
+            for v in (0x8000, 0, vr.randint(0, 0x8000)):
+                mc.value = v
+            res.count("multictl_automation_rounds")
+        except Exception as e:
+            res.violation(f"C11:automation-raises:{T}:{type(e).__name__}", f"MultiCtl mapped past the controllers of {T} raised {e!r}", case)
+            return
+        if not cmp_mod(c, "after-automation"):
+            return
     rawp = p.read()
     recp = _options_record(rawp, t, True)
     if recp != want_rec:
@@ -393,6 +409,13 @@ def random_full(res, T, rng, n):
                     mod = cls()
             else:
                 mod = cls(**kw)
+            if T == "MetaModule":
+                # exposed controllers may be labelled with any text, also with text that reads like one of the module's
+                # own option names; options are still options
+                lab = rng.sample([o.name for o in t.options], 3)
+                for slot, nm in zip((0, 1, rng.randrange(96)), lab):
+                    mod.user_defined[slot].label = rng.choice([nm.replace("_", " ").title(), nm, nm.upper()])
+                case["labels_like_options"] = lab
             for nm, v in kw.items():
                 if nm not in group:
                     model.assign(nm, v)
